@@ -89,13 +89,29 @@ def _arm_dial(fl):
     return problems
 
 
-# ---- C03: the teardown reports a pending dial and notifies; it does not take the mutex itself
+# ---- C03: the teardown (one model step) does its effects in the order the model's theorems and the oracles rely on:
+# record the cause, report a pending dial, leave the fd table + notify (deleteConn), close the descriptor last (so
+# that the descriptor number cannot be reused while the conn is still in the table); it does not take the mutex itself
 def _teardown(fl):
     problems = []
-    if not [f for f in fl if f["kind"] == "call" and f["expr"] == "onConnected"]:
+
+    def lines(kind, exprs, write=None):
+        return [f["line"] for f in fl if f["kind"] == kind and f["expr"] in exprs and (write is None or bool(f.get("write")) == write)]
+    cause = lines("access", ("recv.closeErr",), True)
+    dial = lines("call", ("onConnected",))
+    dele = lines("call", ("recv.p.deleteConn",))
+    clo = lines("call", ("syscall.Close", "vsys.Close", "recv.connUDP.Close"))
+    if not cause:
+        problems.append("closeWithErrorWithoutLock: does not record closeErr")
+    if not dial:
         problems.append("closeWithErrorWithoutLock: does not invoke a pending dial callback")
-    if not [f for f in fl if f["kind"] == "call" and f["expr"] == "recv.p.deleteConn"]:
+    if not dele:
         problems.append("closeWithErrorWithoutLock: does not call p.deleteConn")
+    if not clo:
+        problems.append("closeWithErrorWithoutLock: does not close the descriptor")
+    if not problems and not (max(cause) < min(dial) and max(dial) < min(dele) and max(dele) < min(clo)):
+        problems.append("closeWithErrorWithoutLock: order is not closeErr(%s) < dial callback(%s) < deleteConn(%s) < close(%s)"
+                        % (cause, dial, dele, clo))
     if [f for f in fl if f["kind"] == "lock" and f["expr"] == "recv.mux"]:
         problems.append("closeWithErrorWithoutLock: takes recv.mux itself")
     return problems
@@ -119,5 +135,5 @@ C03_CS = [
             unheld_calls={"recv.mux": ["onConnected", "recv.closeWithError"]}, held_calls={"recv.mux": ["recv.resetRead"]}),
     _custom("addconn_test_p_open_table_register", "poller_epoll.go", "nbio.poller.addConn", _addconn_order),
     _custom("dial_timeout_armed_locked_while_pending", "engine_unix.go", "nbio.Engine.DialAsyncTimeout", _arm_dial),
-    _custom("teardown_reports_dial_and_notifies", "conn_unix.go", "nbio.Conn.closeWithErrorWithoutLock", _teardown),
+    _custom("teardown_cause_dial_notify_close_in_order", "conn_unix.go", "nbio.Conn.closeWithErrorWithoutLock", _teardown),
 ]
